@@ -30,7 +30,7 @@ PURE_ASSUME = ["pgregory.net/rapid v1.3.0 generation/shrinking; Go 1.23.5", "the
 
 PROPS = {
     "C01": {"level": "exploration", "assumptions": SIM_ASSUME, "parts": [sim("TestC01")]},
-    "C02": {"level": "exploration", "assumptions": SIM_ASSUME, "parts": [sim("TestC02", q=(300, 4), t=(4000, 16))]},
+    "C02": {"level": "exploration", "assumptions": SIM_ASSUME, "parts": [sim("TestC02", q=(300, 4), t=(4000, 16)), sim("TestC02Graphs", q=(600, 4), t=(20000, 16))]},
     "C03": {"level": "exploration", "assumptions": SIM_ASSUME, "parts": [sim("TestC03")]},
     "C04": {"level": "exploration", "assumptions": SIM_ASSUME, "parts": [sim("TestC04")]},
     "C05": {"level": "exploration", "assumptions": SIM_ASSUME, "parts": [sim("TestC05")]},
@@ -46,7 +46,8 @@ PROPS = {
             "parts": [sim("TestC10Sim", q=(200, 4), t=(2500, 16)), rp("storefs", "TestC10Codec", (2000, 2), (50000, 8))]},
     "C11": {"level": "exploration", "assumptions": SIM_ASSUME + ["the 3 s persist interval is checked for its stated bound with 1.5 s slack on the sandbox clock; a canary timer turns starvation into 'inconclusive'"],
             "parts": [sim("TestC11Sim", q=(300, 4), t=(4000, 16)),
-                      {"pkg": "sim", "test": "TestC11Persist", "quick": {"checks": 1, "shards": 1, "shrink": "0s", "timeout": "10m"}, "thorough": {"checks": 4, "shards": 4, "shrink": "0s", "timeout": "1h"}}]},
+                      {"pkg": "sim", "test": "TestC11Persist", "quick": {"checks": 1, "shards": 1, "shrink": "0s", "timeout": "10m"}, "thorough": {"checks": 4, "shards": 4, "shrink": "0s", "timeout": "1h"}},
+                      rp("procs", "TestC11Binary", (3, 1), (15, 4), helpers=["cmd/vhelper", "pkg:github.com/Flowpack/prunner/cmd/prunner"])]},
     "C12": {"level": "exploration", "assumptions": SIM_ASSUME + ["the wall clock of the sandbox: generated job ages stay >=25% away from the retention period boundaries"],
             "parts": [sim("TestC12", q=(250, 4), t=(2500, 16))]},
     "C13": {"level": "exploration", "assumptions": ["the Go race detector (-race, Go 1.23.5) and the runtime's concurrent-map checks are the oracle; they see only executed paths within the detector's history window", "the harness's own runner, stores and counters are race-clean (they run under the same detector)"],
@@ -54,11 +55,13 @@ PROPS = {
                        "quick": {"checks": 60, "shards": 4, "shrink": "0s", "timeout": "15m", "env": {"GORACE": "halt_on_error=0"}},
                        "thorough": {"checks": 1500, "shards": 16, "shrink": "0s", "timeout": "3h", "env": {"GORACE": "halt_on_error=0"}}}]},
     "C14": {"level": "exploration", "assumptions": PURE_ASSUME + ["HMAC-SHA256 is unforgeable; the run's secret never appears in a generated invalid credential unless the harness itself signs with it", "route discovery through the verif-only server.Routes hook + chi.Walk"],
-            "parts": [rp("httpauth", "TestC14", (3000, 2), (60000, 8))]},
+            "parts": [rp("httpauth", "TestC14", (3000, 2), (60000, 8)),
+                      {"pkg": "httpauth", "fuzz": "FuzzC14Credential", "thorough": {"fuzztime": "180s", "wall": 900}}]},
     "C15": {"level": "exploration", "assumptions": SIM_ASSUME, "parts": [sim("TestC15", q=(250, 4), t=(3000, 16))]},
     "C16": {"level": "exploration", "assumptions": SIM_ASSUME, "parts": [sim("TestC16")]},
     "C17": {"level": "exploration", "assumptions": PURE_ASSUME,
-            "parts": [rp("inputs", "TestC17Load", (300, 2), (5000, 8)), rp("inputs", "TestC17Corrupt", (600, 2), (10000, 8)), rp("inputs", "TestC17Equals", (5000, 2), (100000, 8))]},
+            "parts": [rp("inputs", "TestC17Load", (300, 2), (5000, 8)), rp("inputs", "TestC17Corrupt", (600, 2), (10000, 8)), rp("inputs", "TestC17Equals", (5000, 2), (100000, 8)),
+                      {"pkg": "inputs", "fuzz": "FuzzC17Load", "thorough": {"fuzztime": "180s", "wall": 900}}]},
     "C18": {"level": "exploration", "assumptions": ["the harness wires the task runner exactly as app.appAction does (pipeline env as runner env, real FileOutputStore); a change to that closure in app/app.go is not seen", "real processes via cmd/vhelper; the environment of the test process stands for the prunner process"],
             "parts": [rp("procs", "TestC18", (40, 2), (1500, 8), helpers=["cmd/vhelper"])]},
     "C19": {"level": "exploration", "assumptions": ["the harness wires the task runner as app.appAction does; real processes via cmd/vhelper", "task names are single path components (no '/' or NUL)"],
